@@ -196,7 +196,19 @@ def build(desc, shuffle=False):
                     sol.add_structure(st)
                     sts[i] = st
                 else:
-                    sts[i] = models[i].put()
+                    # placement may wire at once: Model.put(source pin, (placed structure, pin)), the source pin given by
+                    # name or as a Pin object, the target pin likewise
+                    cand = [c for c in conns if (c[0][0] == i and c[1][0] in sts and c[1][0] != i)
+                            or (c[1][0] == i and c[0][0] in sts and c[0][0] != i)]
+                    if cand and rng.random() < 0.4:
+                        c = cand[0]
+                        conns.remove(c)
+                        me, other = (c[0], c[1]) if c[0][0] == i else (c[1], c[0])
+                        src = f"p{me[1]}" if rng.random() < 0.5 else Pin(f"p{me[1]}")
+                        tgt = f"p{other[1]}" if rng.random() < 0.5 else Pin(f"p{other[1]}")
+                        sts[i] = models[i].put(src, (sts[other[0]], tgt))
+                    else:
+                        sts[i] = models[i].put()
             for (a, b) in conns:
                 lk.connect(sts[a[0]].pin[f"p{a[1]}"], sts[b[0]].pin[f"p{b[1]}"])
             for (c, k, name) in expo:
